@@ -21,7 +21,13 @@ def labelled_programs(rng, n_per=1):
     """vocabulary x resolving opcode x call-making opcode x disposal x framing x surrounding data"""
     out = []
     disposals = ["result", "pop", "popmark", "dup", "memo", "stranded", "build", "arg", "inlist", "setitem"]
-    for m, a, label in progs.VOCAB:
+    # every documented dangerous module and a submodule of each, on top of the shared vocabulary
+    vocab = list(progs.VOCAB)
+    for d in DANGEROUS:
+        for m in (d, d + ".sub"):
+            if not any(v[0] == m for v in vocab):
+                vocab.append((m, "f", "dangerous"))
+    for m, a, label in vocab:
         for resolve in ("GLOBAL", "STACK_GLOBAL", "INST"):
             for call in ("none", "REDUCE", "OBJ", "NEWOBJ", "NEWOBJ_EX", "INSTCALL"):
                 if resolve == "INST" and call not in ("none", "INSTCALL"):
@@ -94,7 +100,7 @@ def labelled_programs(rng, n_per=1):
                     prog.append("STOP")
                     kind = f"{label}/{resolve}/{call}{'+' + chain if chain else ''}/{disp}"
                     out.append((kind, asm.assemble(prog)))
-                    if call != "none" and rng.random() < 0.04:
+                    if call != "none" and rng.random() < (0.3 if label == "bad_call" else 0.04):
                         # known finding D20: a stdlib attribute of the callee's printed name is also resolved
                         shadow = [("GLOBAL", ("collections", a)), "POP"]
                         if chain:
